@@ -6,6 +6,7 @@ import (
 	"fmt"
 	"io"
 	"math/rand/v2"
+	"runtime"
 	"sync"
 	"sync/atomic"
 	"time"
@@ -390,6 +391,23 @@ func c11Group(r *kit.Run, idx int64, rng *rand.Rand) {
 		units = append(units, u)
 		svcs = append(svcs, u.svc)
 	}
+	// members that somebody else has already started (a service shared
+	// with another owner): the group cannot start them again but awaits
+	// them like the others. They run with their owner's context and end
+	// when the owner releases them, after the group has been told to end.
+	release := make(chan struct{})
+	var running []*c11Unit
+	if rng.IntN(3) == 0 {
+		for _, u := range units {
+			if len(running) < 2 && rng.IntN(3) == 0 {
+				u.Outcome = []string{"ok", "error", "panic"}[rng.IntN(3)]
+				u.State = "running"
+				uu := u
+				u.svc.Run = func(ctx context.Context) error { return uu.body(ctx, release) }
+				running = append(running, u)
+			}
+		}
+	}
 	endMode := []string{"close", "parent-cancel"}[rng.IntN(2)]
 	desc := func() map[string]any {
 		return map[string]any{"mode": "group", "members": unitsDesc(units), "end": endMode, "gomaxprocs": procs}
@@ -402,6 +420,25 @@ func c11Group(r *kit.Run, idx int64, rng *rand.Rand) {
 	parent, cancelParent := context.WithCancel(context.Background())
 	defer cancelParent()
 	kit.WithProcs(procs, func() {
+		for _, u := range running {
+			uu := u
+			if err := u.svc.Start(context.Background()); err != nil {
+				kind, problem = "start", "owner's Start of a fresh service: "+err.Error()
+				return
+			}
+			kit.WaitUntil(c11Watchdog, func() bool { return uu.started.Load() != 0 })
+		}
+		defer func() {
+			// the owner of the shared members waits for them in any case
+			select {
+			case <-release:
+			default:
+				close(release)
+			}
+			for _, u := range running {
+				_ = u.svc.Wait()
+			}
+		}()
 		g := srv.Group(fun.SliceIterator(svcs))
 		if err := g.Start(parent); err != nil {
 			kind, problem = "start", err.Error()
@@ -438,6 +475,13 @@ func c11Group(r *kit.Run, idx int64, rng *rand.Rand) {
 		}
 		wd := make(chan struct{})
 		go func() { waitErr = g.Wait(); waitStamp = kit.Stamp(); close(wd) }()
+		if len(running) > 0 {
+			// the group has been told to end but shared members still run:
+			// give its Wait every chance to return early, then let the
+			// owner release them (the stamps decide below)
+			kit.Quiesce(c11Watchdog)
+			close(release)
+		}
 		if !kit.WaitUntil(c11Watchdog/2, func() bool { return isClosed(wd) }) {
 			if cs, q := kit.Quiesce(c11Watchdog); isClosed(wd) {
 				// returned late (slow machine): not a verdict
@@ -653,6 +697,15 @@ func c11Cleanup(r *kit.Run, idx int64, rng *rand.Rand) {
 	procs := kit.ProcsFor(idx / 4)
 	adders := 1 + rng.IntN(4)
 	immediate := rng.IntN(2) == 0 // shutdown immediately after the last Add
+	// racing: the service is ended while the adders are still adding. A
+	// function whose Add returned nil was accepted before the shutdown
+	// closed the queue and has to run; one that was refused does not.
+	racing := rng.IntN(2) == 0
+	cut := 0
+	if racing {
+		n = 100 + rng.IntN(300)
+		cut = rng.IntN(n)
+	}
 	endMode := []string{"close", "parent-cancel"}[rng.IntN(2)]
 	pipe := pubsub.NewUnlimitedQueue[fun.Worker]()
 	var units []*c11Unit
@@ -668,7 +721,7 @@ func c11Cleanup(r *kit.Run, idx int64, rng *rand.Rand) {
 		units = append(units, u)
 	}
 	desc := func() map[string]any {
-		return map[string]any{"mode": "Cleanup", "functions": unitsDesc(units), "adders": adders, "shutdown_immediately_after_last_add": immediate, "end": endMode, "gomaxprocs": procs}
+		return map[string]any{"mode": "Cleanup", "functions": unitsDesc(units), "adders": adders, "shutdown_immediately_after_last_add": immediate, "end_while_adding": racing, "end": endMode, "gomaxprocs": procs}
 	}
 	r.Eval()
 	r.Current(idx, fmt.Sprintf("C11 cleanup n=%d", n))
@@ -677,7 +730,7 @@ func c11Cleanup(r *kit.Run, idx int64, rng *rand.Rand) {
 	var endStamp int64
 	var lateProblem atomic.Value
 	lateYields := []int{rng.IntN(50), rng.IntN(400), rng.IntN(3000)}
-	slowJobs := rng.IntN(2) == 0
+	slowJobs := rng.IntN(2) == 0 && !racing
 	for _, u := range units {
 		u.slow = slowJobs
 	}
@@ -690,6 +743,25 @@ func c11Cleanup(r *kit.Run, idx int64, rng *rand.Rand) {
 			return
 		}
 		var wg sync.WaitGroup
+		var addsDone atomic.Int64
+		end := func() {
+			endStamp = kit.Stamp()
+			if endMode == "close" {
+				c.Close()
+			} else {
+				cancelParent()
+			}
+		}
+		ended := make(chan struct{})
+		if racing {
+			go func() {
+				defer close(ended)
+				for addsDone.Load() < int64(cut) {
+					runtime.Gosched()
+				}
+				end()
+			}()
+		}
 		for a := 0; a < adders; a++ {
 			wg.Add(1)
 			go func(a int) {
@@ -701,19 +773,19 @@ func c11Cleanup(r *kit.Run, idx int64, rng *rand.Rand) {
 							u.accepted.Store(true)
 						}
 						u.addRet.Store(kit.Stamp())
+						addsDone.Add(1)
 					}
 				}
 			}(a)
 		}
 		wg.Wait()
-		if !immediate {
-			kit.Quiesce(c11Watchdog)
-		}
-		endStamp = kit.Stamp()
-		if endMode == "close" {
-			c.Close()
+		if racing {
+			<-ended
 		} else {
-			cancelParent()
+			if !immediate {
+				kit.Quiesce(c11Watchdog)
+			}
+			end()
 		}
 		wd := make(chan struct{})
 		go func() { waitErr = c.Wait(); close(wd) }()
@@ -764,6 +836,13 @@ func c11Cleanup(r *kit.Run, idx int64, rng *rand.Rand) {
 	}
 	for _, u := range units {
 		if !u.accepted.Load() {
+			if racing {
+				if u.runs.Load() != 0 {
+					viol("cleanup-run-count", fmt.Sprintf("cleanup function %d was refused and ran %d times", u.ID, u.runs.Load()))
+					return
+				}
+				continue
+			}
 			viol("add-rejected", fmt.Sprintf("cleanup function %d was refused by an open queue", u.ID))
 			return
 		}
@@ -781,7 +860,7 @@ func c11Cleanup(r *kit.Run, idx int64, rng *rand.Rand) {
 		}
 	}
 	if n >= 2 {
-		r.Distinct(fmt.Sprintf("cleanup|n=%s|adders=%d|imm=%v|%s|p=%d", lenClass(n), adders, immediate, endMode, procs))
+		r.Distinct(fmt.Sprintf("cleanup|n=%s|adders=%d|imm=%v|race=%v|%s|p=%d", lenClass(n), adders, immediate, racing, endMode, procs))
 	}
 	r.Count("cleanup_functions", int64(n))
 }
